@@ -26,6 +26,14 @@ CHECKS = {
         "DESIGN.md §2 C20",
         "E5 pure",
     ),
+    "C19": (
+        "exploration",
+        "schedule search under a deterministic scheduler that owns every thread switch: exhaustive DFS over all interleavings (primitive granularity) for small configurations, preemption-bounded enumeration for 3-4 task configurations, Hypothesis-generated scripts x walk/PCT schedules with line-level yield points; invariant oracle over the recorded history",
+        "The real OrderedLock/OrderedCounter run on real threads whose every switch is chosen by the harness; FIFO (on unambiguous arrivals), mutual exclusion, no lost wake-up (deadlock is an observable state), breakage semantics and gap-free counter values are checked on every schedule. Exhaustive only for the configurations listed in the evidence; sampled beyond.",
+        "Yield points are the operations of threading primitives (plus every source line of threading.py in the sampled phase); finer interleavings are not explored. The arrival order is only asserted when the earlier task is observably parked inside acquire.",
+        "DESIGN.md §2 C19",
+        "E1 detsched",
+    ),
 }
 
 NOT_APPLICABLE: list = []
@@ -65,6 +73,7 @@ def main() -> int:
             "add_only": True,
         },
         "engines": [
+            {"name": "E1 detsched", "path": "vf/detsched.py", "serves_properties": ["C05", "C19"], "kind_free_text": "deterministic cooperative scheduler over real threads, virtual clock, shims of threading/queue/time/concurrent.futures, DFS / bounded / walk / PCT choosers"},
             {"name": "E5 pure", "path": "vf/props", "serves_properties": ["C15", "C20"], "kind_free_text": "Hypothesis properties over pure data, atheris stage in thorough"},
         ],
         "checks": checks,
